@@ -1388,6 +1388,12 @@ theorem udpStep_inv (c : UdpCase) (s : UdpSt) (t : UTok) (h : UdpInv c s) : UdpI
       dsimp only
       obtain ⟨a, b, cc, dd⟩ := h.dh d hh
       exact commit_inv c s d h a b cc dd
+  | s =>
+    dsimp only
+    split
+    · exact ⟨h.dec, h.enc, h.cw, h.ucl, h.hold, h.early, h.remb, h.plen, h.dh⟩
+    · exact h
+  | sa => exact ⟨h.dec, h.enc, h.cw, h.ucl, h.hold, h.early, h.remb, h.plen, h.dh⟩
 
 theorem udpFold_inv (c : UdpCase) (σ : List UTok) (s : UdpSt) (h : UdpInv c s) :
     UdpInv c (σ.foldl (udpStep .repaired c) s) := by
@@ -1599,9 +1605,10 @@ Writes left in progress on a slow tunnel or socket): once those Writes complete 
 gets its turns, no stream content, cut position or ending makes it spin or hang (as long as not
 both sides stay silent forever). -/
 theorem udp_returned (c : UdpCase) (hwf : ¬ (c.utail = .hold ∧ c.ttail = .hold)) (σ : List UTok) :
-    (udpRun .repaired c (udpComplete c σ)).returned = true ∧ UdpInv c (udpRun .repaired c (udpComplete c σ)) := by
+    (udpRun .repaired c (udpComplete c σ)).returned = true ∧ UdpInv c (udpRun .repaired c (udpComplete c σ)) ∧
+    (udpRun .repaired c (udpComplete c σ)).nsent = (udpRun .repaired c (udpComplete c σ)).dec.out.length := by
   unfold udpRun udpComplete
-  rw [List.foldl_append, List.foldl_append, List.foldl_append, List.foldl_append]
+  rw [List.foldl_append, List.foldl_append, List.foldl_append, List.foldl_append, List.foldl_append]
   have h0 := udpFold_inv c σ _ (udpInv_init c)
   generalize σ.foldl (udpStep .repaired c) (udpInit c) = s0 at h0
   have g1 := release_good c s0 h0
@@ -1611,7 +1618,10 @@ theorem udp_returned (c : UdpCase) (hwf : ¬ (c.utail = .hold ∧ c.ttail = .hol
   generalize (List.replicate (c.uevs.length + 1) UTok.u).foldl (udpStep .repaired c) s1 = s2 at p1
   have d2 := tphase c hwf (stepsFor c.tchunks) s2 p1.1 p1.2 p1.1.1.remb
   generalize (List.replicate (stepsFor c.tchunks) UTok.t).foldl (udpStep .repaired c) s2 = s3 at d2
-  exact ⟨lastU c s3 d2.1 d2.2, udpStep_inv c s3 .u d2.1.1⟩
+  have r4 := lastU c s3 d2.1 d2.2
+  have i4 := udpStep_inv c s3 .u d2.1.1
+  generalize udpStep .repaired c s3 .u = s4 at r4 i4
+  exact ⟨by simpa [udpStep, UdpSt.returned] using r4, udpStep_inv c s4 .sa i4, by simp [udpStep]⟩
 
 /-! ### from the invariants to the property predicate -/
 
@@ -1681,6 +1691,15 @@ theorem holdsUdp_of (sc : UdpSpecCase) (chunks : List Bytes) (hflat : chunks.fla
       simp
   simp only [holdsUdp, udpObs, ret, c2, c3, c4]
   rfl
+
+/-- The same when the local side is the asynchronous virtual connection and its queue has been sent. -/
+theorem holdsUdpV_of (sc : UdpSpecCase) (chunks : List Bytes) (hflat : chunks.flatten = sc.stream) (s : UdpSt)
+    (inv : UdpInv ⟨sc.uevs, sc.utail, chunks, sc.ttail, sc.tfused⟩ s) (ret : s.returned = true)
+    (hs : s.nsent = s.dec.out.length) :
+    holdsUdp sc (udpObsV s) = true := by
+  have : udpObsV s = udpObs s := by
+    simp only [udpObsV, udpObs, hs, List.take_length]
+  rw [this]; exact holdsUdp_of sc chunks hflat s inv ret
 
 /-! ### SOCKS5 UDP tunnel codec -/
 
